@@ -78,6 +78,33 @@ def run_case(rng, tier, idx):
     ev = np.linalg.eigvalsh((Fn + Fn.T) / 2)
     c.expect('ABD positive definite', ev.min() > 0, 'min eig %.3e max %.3e' % (ev.min(), ev.max()))
 
+    # the returned object evaluated again (what force_* helpers and user code do): same state -> same matrices; offset, a ply angle
+    # or a ply thickness reassigned -> the matrices of the laminate as it is now
+    if rng.random() < 0.5:
+        c.tag('clause:reevaluated')
+        lam.calc_constitutive_matrix()
+        o2 = dict(o, A=np.array(lam.A), B=np.array(lam.B), D=np.array(lam.D), E=np.array(lam.E), ABD=np.array(lam.ABD), ABDE=np.array(lam.ABDE), t=lam.t)
+        judge_obs(c, o2, tag='evaluated twice: ')
+        what = str(rng.choice(['offset', 'angle', 'thickness']))
+        st2 = list(o['stack']); ts2 = list(o['plyts']); off2 = o['offset']
+        if what == 'offset':
+            off2 = float(rng.uniform(-2, 2) * ref['t'])
+            lam.offset = off2
+        elif what == 'angle':
+            j = int(rng.integers(0, len(st2)))
+            st2[j] = float(rng.uniform(-90, 90))
+            lam.plies[j].theta = st2[j]
+            lam.rebuild()
+        else:
+            j = int(rng.integers(0, len(ts2)))
+            ts2[j] = float(ts2[j] * rng.uniform(0.3, 3))
+            lam.plies[j].t = ts2[j]
+            lam.rebuild()
+        lam.calc_constitutive_matrix()
+        o3 = dict(o, stack=st2, plyts=ts2, offset=off2, A=np.array(lam.A), B=np.array(lam.B), D=np.array(lam.D), E=np.array(lam.E),
+                  ABD=np.array(lam.ABD), ABDE=np.array(lam.ABDE), t=lam.t)
+        c.desc['reevaluated_after'] = what
+        judge_obs(c, o3, tag='re-evaluated after a new %s: ' % what)
     args = gen.read_stack_args(lamd)
     # offset shift rule with two more real executions
     d = float(rng.uniform(-2, 2) * t)
